@@ -150,10 +150,13 @@ def generate_dispatch(ov, arganal):
     calls = []
     if spo or po:
         req = len(spr + pr)
+        npos = len(spr + spo + pr + po)
         for i, arg in enumerate(spo + po):
+            # Keyword arguments come after all positional ones: keep them
+            # when trailing positional arguments are omitted.
             call = call_template.format(
-                lookup=join(lookup[: req + i], trail=True),
-                posargs=join(posargs[: req + i + 1]),
+                lookup=join(lookup[: req + i] + lookup[npos:], trail=True),
+                posargs=join(posargs[: req + i + 1] + posargs[npos + 1 :]),
                 mvar=mv,
             )
             call = textwrap.indent(call, "        ")
